@@ -65,7 +65,7 @@ CORRUPTIONS = {
 }
 
 
-def build_case(rnd, mode, corruption, size):
+def build_case(rnd, mode, corruption, size, algo=None):
     """returns dict with what to send and what the harness believes the decoded bytes are"""
     P = payload(rnd, size)
     c = {"mode": mode, "corruption": corruption, "size": size, "payload": P}
@@ -75,6 +75,7 @@ def build_case(rnd, mode, corruption, size):
     c["chunks"] = chunks
     c["use_md5"] = corruption in ("wrong-md5", "wrong-md5-case") or (corruption == "flip-body-md5") or rnd.random() < 0.25
     c["algo"] = rnd.choice(list(ALGOS)) if (corruption in ("wrong-cksum", "wrong-cksum-case", "flip-body-cksum") or rnd.random() < 0.3) and mode not in ("signed-trailer", "unsigned-trailer") else None
+    if algo and c["algo"]: c["algo"] = algo
     if mode == "unsigned-trailer" and corruption == "wrong-cksum":
         c["algo"] = None; c["corruption"] = "wrong-trailer"
     return c
@@ -102,6 +103,12 @@ def run(chk):
         for cor in sorted(set(CORRUPTIONS[mode])):
             for part in (False, True):
                 plan.append((mode, cor, rnd.choice([100, 3000]), part))
+    # every checksum algorithm, wrong and right, on PutObject and on UploadPart
+    for mode in ("plain", "plain-unsigned", "signed"):
+        for algo_ in ALGOS:
+            for part in (False, True):
+                plan.append((mode, "wrong-cksum", 100, part, algo_))
+                if mode == "plain": plan.append((mode, "none", 100, part, algo_))
     # oversize/short bodies that need several writes of the copy buffer
     for mode in ("unsigned-trailer", "signed"):
         for cor in ("extra-chunk", "declared-less", "declared-more", "truncate"):
@@ -110,6 +117,7 @@ def run(chk):
     while len(plan) < n_cases:
         mode = rnd.choice(MODES)
         plan.append((mode, rnd.choice(CORRUPTIONS[mode]), rnd.choice(sizes), rnd.random() < 0.3))
+    plan = [pl_ if len(pl_) == 5 else pl_ + (None,) for pl_ in plan]
 
     results, mlines = [], []
     n_side = len([1 for m in MODES for c_ in set(CORRUPTIONS[m])]) * 2 + 16
@@ -119,11 +127,13 @@ def run(chk):
             cl = s3c.Client(g.port, "root", "rootsecret")
             r0 = cl.req("PUT", "/bk1")
             chk.require(r0.status == 200, "c06:setup:create-bucket", "CreateBucket answered %s" % r0)
-            for idx, (mode, cor, size, part) in enumerate(pl, start=base):
+            for idx, (mode, cor, size, part, algo_) in enumerate(pl, start=base):
                 if size == 0 and (cor.startswith("flip") or cor in ("declared-less", "truncate", "truncate-at-data-end")):
                     cor = "none"          # nothing to corrupt in an empty payload
-                c = build_case(rnd, mode, cor, size)
+                c = build_case(rnd, mode, cor, size, algo_)
+                if algo_ and cor == "none" and not c["algo"]: c["algo"] = algo_
                 cor = c["corruption"]
+                if c["algo"]: chk.count("checksum:%s:%s:%s" % ("part" if part else "put", c["algo"], "wrong" if cor.startswith("wrong-cksum") else "other"))
                 P, chunks = c["payload"], c["chunks"]
                 key = "k%04d" % idx
                 old = None
